@@ -49,7 +49,10 @@ UniBlank(s) == \A k \in DOMAIN s : s[k] \in WS
 (* a source line whose content the trim removed entirely: white space, after the container prefix of the line
    (block quote markers, a list marker) *)
 PrefixChars == {62, 45, 43, 42, 46, 41} \cup (48..57)
-TrimmedAway(s) == \A k \in DOMAIN s : s[k] \in WS \cup PrefixChars
+TrimmedAway(s) == /\ \A k \in DOMAIN s : s[k] \in WS \cup PrefixChars
+                  \* ... and it is not blank for Markdown (a line of spaces / tabs would have ended the block):
+                  \* it holds white space that only the trim knows (NBSP, form feed, U+2003, ...)
+                  /\ \E k \in DOMAIN s : s[k] \in WS \ {32, 9}
 
 RECURSIVE StripLead(_)
 StripLead(s) == IF s # <<>> /\ s[1] \in {32, 9} THEN StripLead(Tail(s)) ELSE s
